@@ -18,6 +18,7 @@ if [ "$REPO" != "/repo" ]; then
   sed "s#=> /repo#=> $REPO#" go.mod > "$MF"
   cp go.sum "$VERIF_DIR/build/alt-$$.sum"
   MODARGS=(-modfile="$MF")
+  export VERIF_EVIDENCE_DIR="$VERIF_DIR/build/evidence-scratch"
 fi
 cleanup() { rm -f "$BIN"/*-$$ "$VERIF_DIR/build/alt-$$.mod" "$VERIF_DIR/build/alt-$$.sum"; }
 trap cleanup EXIT
